@@ -4,6 +4,7 @@ use proptest::collection::vec;
 use proptest::prelude::*;
 use sdjwt_model::derive::SelOpts;
 use sdjwt_model::oracle::c11::{check, C11Case, HolderOp};
+use sdjwt_model::keys::HolderKey;
 use sdjwt_model::sut::{IssueSpec, KbArgs};
 use serde_json::{json, Value};
 
@@ -35,20 +36,58 @@ fn issuer_op() -> BoxedStrategy<IssueSpec> {
 }
 
 pub fn strategy() -> BoxedStrategy<Case> {
-    let issuer = (alg_strategy(), vec(issuer_op(), 1..=8)).prop_map(|(alg, ops)| C11Case::Issuer { alg, ops });
+    let issuer = (alg_strategy(), vec((issuer_op(), any::<u8>()), 1..=8)).prop_map(|(alg, raw)| {
+        let mut ops: Vec<IssueSpec> = vec![];
+        for (mut op, bits) in raw {
+            let prev_holder = ops.last().map(|p: &IssueSpec| p.holder);
+            let user_cnf = op.claims.get("cnf").is_some();
+            match bits % 12 {
+                // the same key material as in the previous call under a JWK with other metadata
+                0 | 1 if !user_cnf => match prev_holder {
+                    Some(HolderKey::Ec) => op.holder = HolderKey::EcKid,
+                    Some(HolderKey::EcKid) => op.holder = HolderKey::Ec,
+                    _ => {}
+                },
+                // a call whose own result is unspecified (user claim cnf AND a holder key); later
+                // calls must be unaffected
+                2 if op.claims.is_object() => {
+                    if !op.holder.is_some() {
+                        op.holder = if bits & 16 != 0 { HolderKey::Ec } else { HolderKey::Ed };
+                    }
+                    let v = if bits & 32 != 0 { json!({"jwk": HolderKey::Ec2.jwk_value().unwrap()}) } else { json!("user-cnf") };
+                    op.claims.as_object_mut().unwrap().insert("cnf".into(), v);
+                    if let sdjwt_model::tree::Strat::Custom(_) = op.strat {
+                        op.strat = sdjwt_model::tree::Strat::NoSD;
+                    }
+                }
+                _ => {}
+            }
+            ops.push(op);
+        }
+        C11Case::Issuer { alg, ops }
+    });
     let holder = (
         issue_spec_strategy(ClaimCfg::SHORT_F64, HONEST_PATHS, holder_strategy()),
         vec(
-            (choices_strategy(), prop::option::weighted(0.5, (aud_nonce_strategy(), aud_nonce_strategy())), 0u8..11, any::<u8>()),
+            (choices_strategy(), prop::option::weighted(0.5, (aud_nonce_strategy(), aud_nonce_strategy())), 0u8..13, any::<u8>()),
             1..=8,
         ),
     )
         .prop_map(|(issue, raw_ops)| {
+            let mut prev_good: Option<serde_json::Map<String, Value>> = None;
             let ops = raw_ops
                 .into_iter()
                 .map(|(ch, kb, kind, bits)| {
                     let selection = selection_for(&issue, &ch, SelOpts { allow_null: true });
                     match kind {
+                        // the previous good selection again, members in reverse order, key-bound
+                        // with fresh aud / nonce: same disclosure set, other order
+                        11 | 12 if prev_good.is_some() => {
+                            let selection = sdjwt_model::derive::reverse_members(prev_good.as_ref().unwrap());
+                            let kb = if issue.holder.is_some() { Some(KbArgs { default_alg: bits & 1 == 1, aud: format!("https://rp{}.example", bits), nonce: format!("n-{}", bits), key: issue.holder }) } else { None };
+                            prev_good = Some(selection.clone());
+                            HolderOp::Good { selection, kb }
+                        }
                         0 => {
                             let mut selection = selection;
                             selection.insert("no_such_claim_zz".into(), Value::Bool(true));
@@ -71,6 +110,7 @@ pub fn strategy() -> BoxedStrategy<Case> {
                         }
                         _ => {
                             let kb = if issue.holder.is_some() { kb.map(|(aud, nonce)| KbArgs { default_alg: nonce.chars().count() % 2 == 1, aud, nonce, key: issue.holder }) } else { None };
+                            prev_good = Some(selection.clone());
                             HolderOp::Good { selection, kb }
                         }
                     }
